@@ -1,6 +1,30 @@
 # unit `worker`: crates/lib/src/action/worker.rs — serves C01, C02, C15
 W = "crates/lib/src/action/worker.rs"
+def gen_priority_ord(build, R):
+    """#[derive(PartialOrd, Ord)] on Priority = declaration order of the variants: generated from the real enum on every run (Verus accepts the
+    derive but gives `<`/`>` no meaning, so the order is supplied as a PartialOrd impl with its spec)"""
+    src = build.Source.get("crates/events/src/event.rs")
+    s, e = R.find_type(src.toks, src.m, "Priority")
+    t = src.toks[s:e]
+    ob = [i for i, x in enumerate(t) if x.s == "{"][0]
+    names = [x.s for i, x in enumerate(t[ob + 1:-1]) if x.k == "id" and t[ob + 1 + i + 1].s in (",", "}")]
+    if len(names) < 2: raise R.ExtractError("gen_priority_ord: variants of Priority not found")
+    arms = " ".join("Priority::%s => %d," % (n, i) for i, n in enumerate(names))
+    return ("// GENERATED from the variant order of enum Priority (%s)\n" % " < ".join(names) +
+            "pub open spec fn prio_rank(p: Priority) -> int { match p { %s } }\n" % arms +
+            "impl vstd::std_specs::cmp::PartialOrdSpecImpl for Priority {\n"
+            "    open spec fn obeys_partial_cmp_spec() -> bool { true }\n"
+            "    open spec fn partial_cmp_spec(&self, other: &Priority) -> Option<core::cmp::Ordering> {\n"
+            "        if prio_rank(*self) < prio_rank(*other) { Some(core::cmp::Ordering::Less) } else if prio_rank(*self) == prio_rank(*other) { Some(core::cmp::Ordering::Equal) } else { Some(core::cmp::Ordering::Greater) }\n"
+            "    }\n}\n"
+            "impl PartialOrd for Priority {\n"
+            "    fn partial_cmp(&self, other: &Priority) -> (r: Option<core::cmp::Ordering>) {\n"
+            "        let a: u8 = match self { %s };\n        let b: u8 = match other { %s };\n" % (arms, arms) +
+            "        if a < b { Some(core::cmp::Ordering::Less) } else if a == b { Some(core::cmp::Ordering::Equal) } else { Some(core::cmp::Ordering::Greater) }\n"
+            "    }\n}\n")
+
 UNIT = dict(
+    gen_spec=[gen_priority_ord],
     name="worker",
     prelude=["worker_env.rs"],
     spec=["spec.rs"],
